@@ -210,6 +210,13 @@ func expectA(cfg cfgA, rec string, copyIdx int, oversize bool) expA {
 	return e
 }
 
+// sameDocUnordered: the statement does not fix where the mark goes among the keys.
+func sameDocUnordered(a, b string) bool {
+	va, err1 := Parse(a)
+	vb, err2 := Parse(b)
+	return err1 == nil && err2 == nil && Equal(va, vb, false)
+}
+
 type obsA struct {
 	refused bool
 	docs    []string
@@ -259,7 +266,7 @@ func compareA(cfg cfgA, rec string, exp expA, o obsA) *failA {
 		return &failA{"stream", feat(), fmt.Sprintf("In admitted record %q but the stream holds %d events", rec, len(o.docs))}
 	}
 	got := o.docs[0]
-	if !exp.anyDoc && got != exp.doc {
+	if !exp.anyDoc && got != exp.doc && !sameDocUnordered(got, exp.doc) {
 		clause := "altered"
 		if exp.cutoff {
 			clause = "cut"
@@ -403,7 +410,9 @@ func (e *envA) one(rec string, sid uint64, copyIdx int) {
 		doc = o.docs[0]
 	}
 	r.Outcome("A", cfg.Decoder, fmt.Sprint(exp.cutoff), verdict, doc)
-	r.Sample(map[string]any{"part": "A", "cfg": cfg, "record": rec, "copy": copyIdx, "verdict": verdict, "delivered": doc})
+	if (exp.cutoff && !o.refused && cfg.Field != "") || verdict == "refused:banned" {
+		sample(r, "A:"+verdict, map[string]any{"part": "A", "cfg": cfg, "record": rec, "copy": copyIdx, "verdict": verdict, "delivered": doc})
+	}
 }
 
 func (e *envA) burst(rec string) {
